@@ -196,7 +196,7 @@ func init() {
 
 		// ---- the views: `if limit <= 0 { limit = N }` in GetRecentQueries and GetTopQueries, the same N (a value, not a shape:
 		// the property does not say how many rows "the default" is)
-		viewDefault := ""
+		viewDefaults := map[string]string{}
 		viewOK := true
 		for _, fn := range []string{"GetRecentQueries", "GetTopQueries"} {
 			vf := x.Func(pkg, fn)
@@ -223,19 +223,20 @@ func init() {
 					}
 				}
 			}
-			if got == "" || got == "0" || (viewDefault != "" && viewDefault != got) {
+			if got == "" || got == "0" {
 				viewOK = false
 			}
-			viewDefault = got
+			viewDefaults[fn] = got
 		}
-		x.Assert("history:view-default", viewOK, "expected `if limit <= 0 { limit = N }` with one positive literal N in GetRecentQueries and GetTopQueries (got %q)", viewDefault)
+		x.Assert("history:view-default", viewOK, "expected `if limit <= 0 { limit = N }` with a positive literal N in GetRecentQueries and in GetTopQueries (got %v)", viewDefaults)
 
 		if newDefault == "" || !viewOK {
 			return
 		}
 		var sb strings.Builder
 		sb.WriteString("namespace Wtf.Gen.History\n\n")
-		fmt.Fprintf(&sb, "/-- GetRecentQueries / GetTopQueries: rows returned for a non-positive limit -/\ndef viewDefault : Nat := %s\n\n", viewDefault)
+		fmt.Fprintf(&sb, "/-- GetRecentQueries: rows returned for a non-positive limit -/\ndef recentDefault : Nat := %s\n\n", viewDefaults["GetRecentQueries"])
+		fmt.Fprintf(&sb, "/-- GetTopQueries: rows returned for a non-positive limit -/\ndef topDefault : Nat := %s\n\n", viewDefaults["GetTopQueries"])
 		fmt.Fprintf(&sb, "/-- NewSearchHistory: value substituted for a non-positive requested maximum -/\ndef newDefault : Int := %s\n\n", newDefault)
 		fmt.Fprintf(&sb, "/-- Load takes over the file's max_size only under `if loaded.MaxSize > 0` -/\ndef loadGuard : Bool := %v\n\n", guard)
 		fmt.Fprintf(&sb, "/-- Load's final `if sh.MaxSize <= 0 { sh.MaxSize = N }` (none when absent) -/\ndef loadFallback : Option Int := %s\n\n", fallbackLean)
